@@ -8,7 +8,7 @@ A family is described by a JSON-able dict `fam`:
   dflt     [lattice index of the default per axis]   (lattice = 5 user positions per axis)
   map      "none" | "lin" | "bent" | "bent2"
   kind     "ttf" | "cff"
-  content  "outl" | "comp" | "kern" | "kernx" | "mark" | "mvar" | "sparseg" | "sparsel"
+  content  "outl" | "comp" | "kern" | "kernx" | "mark" | "mvar" | "sparseg" | "sparsee" | "sparsel"
   coef     int, perturbs every value
 and a master by its lattice index tuple.  Nothing here decides a verdict.
 """
@@ -80,7 +80,7 @@ def glyph_names(fam):
     names = [".notdef", "a", "b", "c", "d", "e", "i"]
     if fam["content"] == "mark":
         names += ["m", "n"]
-    if fam["content"] == "comp" and fam["kind"] == "ttf":
+    if fam["content"] in ("comp", "sparsee") and fam["kind"] == "ttf":
         names.append("comp")
     return names
 
@@ -125,6 +125,14 @@ def _fea(fam, spec, nloc, odd):
             rules.append("pos [c e] [a e] %d;" % V(10, 2))
         else:
             rules.append("pos [c e] [a] %d;" % V(10, 2))
+        if c == "kernx":
+            # first-glyph classes that differ between masters: one class [a b] here, two classes there,
+            # whose values go different ways
+            if not odd:
+                rules.append("pos [a b] [d i] %d;" % V(-50, 7))
+            else:
+                rules.append("pos [a] [d i] %d;" % V(-80, 8))
+                rules.append("pos [b] [d i] %d;" % V(-20, 9))
         return "languagesystem DFLT dflt;\nlanguagesystem latn dflt;\nfeature kern {\n  %s\n} kern;\n" % "\n  ".join(rules)
     if c == "mark":
         A = lambda bx, by, k: "<anchor %d %d>" % (V(bx, 10 + 2 * k), V(by, 11 + 2 * k))  # noqa: E731
@@ -141,7 +149,8 @@ def _fea(fam, spec, nloc, odd):
 
 def static_master(fam, idx, sparse=False):
     """Static master of the family at lattice position `idx` (tuple of lattice indices).
-    sparse=True: the sparse form of this master for the contents "sparseg" (glyph b missing)
+    sparse=True: the sparse form of this master for the contents "sparseg" (glyph b missing), "sparsee"
+    (glyph b and the composite present but empty)
     and "sparsel" (no layout tables)."""
     spec = _spec(fam)
     loc = {AXES[ai][0]: AXES[ai][2][i] for ai, i in enumerate(idx)}
@@ -160,6 +169,11 @@ def static_master(fam, idx, sparse=False):
     for gn in names:
         gi = all_names.index(gn)
         adv = tinyfont.advance(spec, gi, nloc)
+        if sparse and content == "sparsee" and gn in ("b", "comp"):
+            # a sparse master that keeps the whole glyph order: the glyphs it does not define are empty
+            glyphs[gn] = TTGlyphPen(None).glyph()
+            metrics[gn] = (adv, 0)
+            continue
         if gn == "comp":
             pen = TTGlyphPen({"a": None, "b": None})
             pen.addComponent("a", (1, 0, 0, 1, 0, 0))
@@ -206,7 +220,7 @@ def static_master(fam, idx, sparse=False):
 
             addOpenTypeFeaturesFromString(font, fea)
     data = tinyfont.to_bytes(font)
-    if "comp" in names:
+    if "comp" in names and not (sparse and content == "sparsee"):
         # left side bearing = xMin, so that rasterisers do not shift the outline
         f = TTFont(io.BytesIO(data))
         a, _l = f["hmtx"].metrics["comp"]
